@@ -48,6 +48,8 @@ pub struct Tok {
     pub locked: i128,
     pub released: i128,
     pub supply: i128,
+    /// a probe token that answers metadata reads inconsistently (harness::probe_token::set_flaky)
+    pub flaky: bool,
 }
 
 #[derive(Clone, Debug, Hash, PartialEq, Eq)]
@@ -148,6 +150,7 @@ impl<'a> IExec<'a> {
                 locked: 0,
                 released: 0,
                 supply: 40_000,
+                flaky: false,
             });
             tok_addr.push(a);
         }
@@ -175,6 +178,7 @@ impl<'a> IExec<'a> {
                 locked: 0,
                 released: 0,
                 supply: 4000,
+                flaky: false,
             });
             tok_addr.push(a);
         }
